@@ -10,6 +10,7 @@
 //! `PKG_LOCATION=`, list keys and faulty lines never repeated inside one
 //! record.
 
+use crate::gen::misc::DEP_WORDS;
 use crate::oracle::scan::{Sem, SCALARS};
 use crate::rng::Rng;
 use std::io::{self, BufRead, Read};
@@ -125,6 +126,14 @@ fn scalar_value(r: &mut Rng, id: &str) -> String {
 }
 
 pub fn good_depend(r: &mut Rng, id: &str) -> String {
+    // a vocabulary word as the whole pattern or as the category: still one
+    // ':' with two valid halves
+    match r.below(24) {
+        0 => return format!("{}:../../cat/{id}", r.pick(&DEP_WORDS)),
+        1 => return format!("{id}-[0-9]*:../../{}/{id}", r.pick(&DEP_WORDS)),
+        2 => return format!("{}:{}/{id}", r.pick(&DEP_WORDS), r.pick(&DEP_WORDS)),
+        _ => {}
+    }
     let pat = match r.below(7) {
         0 => format!("{id}-[0-9]*"),
         1 => format!("{id}>=1.0"),
@@ -142,8 +151,34 @@ pub fn good_depend(r: &mut Rng, id: &str) -> String {
     format!("{pat}:{path}")
 }
 
+/// An invalid item made of vocabulary words and a valid 'pattern:pkgpath':
+/// a word as an extra field in front of, between or behind the two halves
+/// (two or three ':'), words only, or a word where the path belongs.
+fn word_depend(r: &mut Rng, id: &str) -> String {
+    let good = good_depend(r, id);
+    let (pat, path) = match good.split_once(':') {
+        Some(x) => x,
+        None => (good.as_str(), ""),
+    };
+    let w = *r.pick(&DEP_WORDS);
+    let w2 = *r.pick(&DEP_WORDS);
+    match r.below(12) {
+        0 | 1 | 2 => format!("{w}:{pat}:{path}"),
+        3 => format!("{pat}:{w}:{path}"),
+        4 => format!("{pat}:{path}:{w}"),
+        5 => format!("{w}:{w2}:{pat}:{path}"),
+        6 => format!("{w}:{pat}:{path}:{w2}"),
+        7 => w.to_string(),
+        8 => format!("{w}:{w2}"),
+        9 => format!("{w}:{w2}:{path}"),
+        10 => format!("{pat}:{w}"),
+        _ => format!("{w}:{w2}:{w}"),
+    }
+}
+
 pub fn bad_depend(r: &mut Rng, id: &str) -> String {
-    match r.below(10) {
+    match r.below(15) {
+        10..=14 => word_depend(r, id),
         0 => format!("hello{id}"),
         1 => format!("{id}:b:c"),
         2 => format!("{id}-[0-9]*::../../cat/{id}"),
